@@ -67,19 +67,25 @@ def canon(v):
 
 
 _OPS = {"add": operator.add, "sub": operator.sub, "mul": operator.mul}
+_EXC_TYPES = {"Exception": Exception, "ValueError": ValueError, "RuntimeError": RuntimeError}
 
 
 class World(object):
     """Real nodes + DagRef.  shape: tuple of node specs, node i named 'n<i>':
     ('P', v0) | ('F', kids) | ('X', kids) | ('Z', deps) | ('A', kid) | ('T', kids) | ('R', kids) |
-    ('B', kids) | ('O', opname, kid, kid) | ('D', kids, deps)  (function with dependency-only children)
+    ('B', kids) | ('B', kids, exception type name) | ('O', opname, kid, kid) |
+    ('D', kids, deps)  (function with dependency-only children)
+    alphabet: None (all operations) or the collection of operation kinds to generate.
     """
 
-    def __init__(self, shape, dom=(0, 1), structural=False, vers=(0, 1)):
+    def __init__(self, shape, dom=(0, 1), structural=False, vers=(0, 1), alphabet=None):
         from kafe2.core.fitters import nexus as nx
 
         self.nx = nx
         self.shape, self.dom, self.structural, self.vers = shape, dom, structural, vers
+        self.alphabet = alphabet
+        self.exc = {}
+        self.failed_reads = ()  # nodes whose read raised since the last operation that was not a read
         self.calls = collections.Counter()
         self.cell = [0]
         self.real = collections.OrderedDict()
@@ -129,7 +135,12 @@ class World(object):
             self.par[n], self.ch[n] = list(kids), list(kids)
         elif k == "B":
             kids = names(spec[1])
-            self.real[n] = nx.Fallback([self.real[c] for c in kids], name=n)
+            if len(spec) > 2:
+                self.exc[n] = spec[2]
+                self.real[n] = nx.Fallback([self.real[c] for c in kids], exception_type=_EXC_TYPES[spec[2]], name=n)
+            else:
+                self.exc[n] = "Exception"
+                self.real[n] = nx.Fallback([self.real[c] for c in kids], name=n)
             self.par[n], self.ch[n] = list(kids), list(kids)
         else:
             raise ValueError(k)
@@ -181,7 +192,9 @@ class World(object):
             for c in self.ch[n]:
                 try:
                     return self.ev(c)
-                except RefExc:
+                except RefExc as e:
+                    if self.exc[n] not in ("Exception", str(e)):
+                        raise  # not the exception type this fallback continues on
                     continue
             raise RefExc("RuntimeError")
         raise ValueError(k)
